@@ -20,13 +20,13 @@ type SwitchCall struct {
 }
 
 type CaseC05 struct {
-	Clause string       `json:"clause"` // a | b | c | d
-	Text   string       `json:"text,omitempty"`
-	Attr   string       `json:"attr,omitempty"`
-	Mixed  string       `json:"mixed,omitempty"`
-	Enc    int          `json:"enc"` // 0 Map.Xml 1 Map.XmlIndent 2 MapSeq.Xml 3 MapSeq.XmlIndent
-	Doc    *XElem       `json:"doc,omitempty"`
-	Calls  []SwitchCall `json:"calls,omitempty"`
+	Clause string                 `json:"clause"` // a | b | c | d
+	Text   string                 `json:"text,omitempty"`
+	Attr   string                 `json:"attr,omitempty"`
+	Mixed  string                 `json:"mixed,omitempty"`
+	Enc    int                    `json:"enc"` // 0 Map.Xml 1 Map.XmlIndent 2 MapSeq.Xml 3 MapSeq.XmlIndent
+	Doc    *XElem                 `json:"doc,omitempty"`
+	Calls  []SwitchCall           `json:"calls,omitempty"`
 	Value  map[string]interface{} `json:"value,omitempty"` // clause e: any JSON-shaped Map, any root shape
 	Root   string                 `json:"root,omitempty"`  // clause e: explicit root tag ("" = none)
 }
